@@ -5,8 +5,8 @@ import PystogVerif.Proofs.Dst
 
 Model: generated `Transformer.F_to_G`, `Transformer.G_to_F` (translator output).  Grids are the sine-transform-matched
 uniform grids r_j = j·dr, Q_k = k·π/(N·dr), j,k = 0..N, for every N ≥ 1 and dr > 0 (no bound on N).
-The statements about closed-form continuous partners "to discretisation accuracy" are not theorems (no quadrature
-error bound is available); they are checked numerically by the oracle against the closed form (DESIGN §8 C01).
+The closed-form continuous partners: Props/C01Gauss (the pair itself) and Props/C01Quad (explicit quadrature
+error bound on uniform grids); non-uniform grids are checked numerically by the oracle (DESIGN §8 C01, §29).
 -/
 namespace C01
 open Real Finset Spec
